@@ -399,6 +399,9 @@ func (e *c18Env) check(exp map[string][]c18Cell, keyOnDiff, ctx string) (key, wh
 	get, list, key, what := e.readBack()
 	if key != "" {
 		e.logf("  %s: %s", ctx, what)
+		if key == "readback:unknown-user" && strings.HasPrefix(keyOnDiff, "rejected-changed-state:") {
+			key = keyOnDiff // the rejected request created a user of its own
+		}
 		return key, ctx + ": " + what
 	}
 	e.logf("  %s: expected %s | GET %s | LIST %s", ctx, c18ExpString(exp), c18StoreString(get), c18StoreString(list))
@@ -447,7 +450,9 @@ func (e *c18Env) malformed() []c18Malformed {
 			c18Malformed{"baduid-body", "POST", c18Path(uid), strings.Replace(good, std, "***", 1)},
 			c18Malformed{"baduid-body", "POST", c18Path(uid), strings.Replace(good, `"`+std+`"`, "5", 1)},
 			c18Malformed{"baduid-body", "POST", c18Path(uid), strings.Replace(good, std, "", 1)},
-			c18Malformed{"baduid-body", "POST", c18Path(uid), strings.Replace(good, std, std[:8], 1)},
+			// a well-formed UID that is not the one in the path
+			c18Malformed{"uid-mismatch", "POST", c18Path(uid), strings.Replace(good, std, std[:8], 1)},
+			c18Malformed{"uid-mismatch", "POST", c18Path(uid), strings.Replace(good, std, base64.StdEncoding.EncodeToString(append([]byte{0x77}, uid[1:]...)), 1)},
 		)
 	}
 	return out
@@ -736,6 +741,8 @@ func TestVerifC18Replay(t *testing.T) {
 	jobs := make(chan job, 256)
 	var wg sync.WaitGroup
 	seed := int(kit.Seed())
+	var seenM sync.Mutex
+	seen := map[string]int{} // violations per key: every behaviour is still run, only the first few are re-run
 	workers := runtime.GOMAXPROCS(0)
 	for w := 0; w < workers; w++ {
 		wg.Add(1)
@@ -748,9 +755,6 @@ func TestVerifC18Replay(t *testing.T) {
 				}
 			}()
 			for j := range jobs {
-				if res.NumViolations() > 40 {
-					continue // enough evidence
-				}
 				var b c18Behaviour
 				if err := json.Unmarshal(j.line, &b); err != nil {
 					res.Note("undecodable behaviour %d: %v", j.idx, err)
@@ -775,10 +779,18 @@ func TestVerifC18Replay(t *testing.T) {
 					if key != "" {
 						// a failing run never hands its database on; say whether a brand-new file fails too
 						env.destroy()
-						env = c18NewEnv(tmp)
-						key2, _, _ := c18Run(&b, c, res, env)
-						env.destroy()
 						env = nil
+						key2 := "not-tried"
+						seenM.Lock()
+						seen[key]++
+						first := seen[key] <= 3
+						seenM.Unlock()
+						if first {
+							env = c18NewEnv(tmp)
+							key2, _, _ = c18Run(&b, c, res, env)
+							env.destroy()
+							env = nil
+						}
 						res.Violate(key, what, map[string]any{"behaviour": b, "concretisation": c, "table": table,
 							"database_reused": reused, "key_on_new_file": key2})
 					}
